@@ -19,6 +19,7 @@
   Variable renaming is Props.C09.evalVal_rename.
 -/
 import GqlVerif.Gql.Exec
+import GqlVerif.Proofs.ExecRespell
 namespace GqlVerif.Props.C03
 open GqlVerif GqlVerif.Exec
 
@@ -127,5 +128,100 @@ theorem addCollected_duplicate_merges (acc : List Collected) (c : Collected) (h 
 theorem addCollected_new_appends (acc : List Collected) (c : Collected) (h : acc.any (·.key == c.key) = false) :
     addCollected acc c = acc ++ [c] := by
   simp [addCollected, h]
+
+/-! ### the response depends on argument and directive values only through what they denote -/
+
+/-- **execution_depends_only_on_denotations** (∀ schemas, universes, pairs of (operation, variables)): when two operations
+    have the same structure and every argument and directive condition evaluates, in its own environment, to the same
+    JSON value (`SelRel`), the responses are equal.  Every normalization step that only changes how a value is spelled
+    is an instance. -/
+theorem execution_depends_only_on_denotations (s : Schema) (u : Universe) (op op' : Op) (vars vars' : List (String × Json))
+    (hk : op.kind = op'.kind) (hs : SelsRel (evOf op vars) (evOf op' vars') op.sels op'.sels)
+    (hf : Rel2 (FragRel (evOf op vars) (evOf op' vars')) op.frags op'.frags) :
+    execute s u op vars = execute s u op' vars' :=
+  execute_respelled op op' vars vars' s u hk hs hf
+
+/-! ### variable extraction (the variables object is the one after extraction) -/
+
+/-- an argument entry after extraction: unchanged, or a literal replaced by a variable that is bound to the same value -/
+def ExtArg (vars : List (String × Json)) (x y : String × Val) : Prop :=
+  x.1 = y.1 ∧ (y.2 = x.2 ∨ ∃ n j, x.2 = .lit j ∧ y.2 = .var n ∧ lookupKV vars n = some j)
+def ExtDir (vars : List (String × Json)) (d d' : Dir) : Prop :=
+  d.name = d'.name ∧ (d'.ifArg = d.ifArg ∨ ∃ n j, d.ifArg = .lit j ∧ d'.ifArg = .var n ∧ lookupKV vars n = some j)
+
+/-- **extraction_preserves_execution** (∀ schemas, universes, operations, variables): replacing literals by variables
+    that the variables object binds to the same values — in any subset of the arguments and directive conditions of the
+    selections and fragments — does not change the response. -/
+theorem extraction_preserves_execution (s : Schema) (u : Universe) (op op' : Op) (vars : List (String × Json))
+    (hk : op.kind = op'.kind) (hd : op'.varDefaults = op.varDefaults)
+    (hs : Rel2 (SelMap (ExtArg vars) (ExtDir vars)) op.sels op'.sels)
+    (hf : Rel2 (fun f f' => f.name = f'.name ∧ f.typeCond = f'.typeCond ∧ Rel2 (SelMap (ExtArg vars) (ExtDir vars)) f.sels f'.sels)
+      op.frags op'.frags) :
+    execute s u op vars = execute s u op' vars := by
+  have hval : ∀ (v v' : Val), (v' = v ∨ ∃ n j, v = .lit j ∧ v' = .var n ∧ lookupKV vars n = some j) →
+      evOf op vars v = evOf op' vars v' := by
+    intro v v' h
+    simp only [evOf, hd]
+    rcases h with h | ⟨n, j, h1, h2, h3⟩
+    · rw [h]
+    · rw [h1, h2]; exact (extracted_literal_same_value vars op.varDefaults n j h3).symm
+  have hA : ∀ x y, ExtArg vars x y → x.1 = y.1 ∧ evOf op vars x.2 = evOf op' vars y.2 :=
+    fun x y h => ⟨h.1, hval _ _ h.2⟩
+  have hD : ∀ d d', ExtDir vars d d' → d.name = d'.name ∧ evOf op vars d.ifArg = evOf op' vars d'.ifArg :=
+    fun d d' h => ⟨h.1, hval _ _ h.2⟩
+  apply execute_respelled op op' vars vars s u hk (selsMap_rel hA hD _ _ hs)
+  exact Rel2.mono (fun f f' h => ⟨h.1, h.2.1, selsMap_rel hA hD _ _ h.2.2⟩) hf
+
+theorem evalValF_inject (vars defs : List (String × Json)) (n : String) (d : Json)
+    (habs : lookupKV vars n = none) (hd : lookupKV defs n = some d) :
+    ∀ (fuel : Nat) (v : Val), evalValF ((n, d) :: vars) defs fuel v = evalValF vars defs fuel v := by
+  intro fuel
+  induction fuel with
+  | zero => intro v; rfl
+  | succ fuel ih =>
+    intro v
+    cases v with
+    | var m =>
+      simp only [evalValF]
+      by_cases hm : m = n
+      · subst hm
+        rw [lookupKV_cons_self, habs, hd]
+      · have : lookupKV ((n, d) :: vars) m = lookupKV vars m := by
+          unfold lookupKV
+          rw [List.find?_cons]
+          have hb : ((n, d).1 == m) = false := by simpa using fun h => hm h.symm
+          simp only [hb]
+        rw [this]
+    | lit j => rfl
+    | list xs =>
+      simp only [evalValF]
+      congr 2
+      apply List.map_congr_left
+      intro x _
+      rw [ih x]
+    | obj fs =>
+      simp only [evalValF]
+      congr 2
+      have : (fun (p : String × Val) => (evalValF ((n, d) :: vars) defs fuel p.2).map fun j => (p.1, j)) =
+          fun (p : String × Val) => (evalValF vars defs fuel p.2).map fun j => (p.1, j) := by
+        funext p; rw [ih p.2]
+      exact congrArg (fun f => List.filterMap f fs) this
+
+/-- **default_injection_preserves_execution** (∀ …): writing the operation default of an absent variable into the
+    variables object does not change the response. -/
+theorem default_injection_preserves_execution (s : Schema) (u : Universe) (op : Op) (vars : List (String × Json))
+    (n : String) (d : Json) (habs : lookupKV vars n = none) (hd : lookupKV op.varDefaults n = some d) :
+    execute s u op vars = execute s u op ((n, d) :: vars) := by
+  have hev : ∀ v, evOf op vars v = evOf op ((n, d) :: vars) v := by
+    intro v
+    simp only [evOf, evalVal]
+    exact (evalValF_inject vars op.varDefaults n d habs hd 64 v).symm
+  apply execute_respelled op op vars ((n, d) :: vars) s u rfl (selsRel_refl hev _)
+  have : ∀ (l : List Frag), Rel2 (FragRel (evOf op vars) (evOf op ((n, d) :: vars))) l l := by
+    intro l
+    induction l with
+    | nil => exact .nil
+    | cons f fs ih => exact .cons ⟨rfl, rfl, selsRel_refl hev _⟩ ih
+  exact this _
 
 end GqlVerif.Props.C03
